@@ -75,7 +75,9 @@ Bad(op, o, T) ==
         polls == \E c \in Callers :
                     \/ o.run[c] # (IF T.req[c] = "polled" /\ T.reqOut[c].kind = "none" THEN 1 ELSE 0)
                     \/ o.orun[c] # (IF T.opt[c] = "polled" /\ T.optOut[c].kind = "none" THEN 1 ELSE 0)
+        foreign == (\E c \in Callers : o.cal[c][2] >= 1000000) \/ (\E i \in 1 .. Len(KeySeq) : o.mem[i] >= 1000000)
     IN {<<IF T.cal[c].by = "insert" THEN "C11" ELSE "C06", "caller_answer">> : c \in calBad}
+       \cup (IF foreign THEN {<<"C17", "foreign_value">>} ELSE {})
        \cup {<<"C06", "caller_never_answered">> : c \in hung}
        \cup {<<"drift", "answer_timing">> : c \in calDiff \ calBad}
        \cup {IF T.uval[KeySeq[i]] # 0 THEN <<"C11", "insert_overwritten_by_late_fetch">>
@@ -93,7 +95,7 @@ TraceNext ==
     /\ LET b == Bad(Rec[l].op, Rec[l].obs, S')
            isInit == Rec[l].op.a = "init" IN
        \* once the run has drifted only the tag that rests on the logged operations alone is still judged
-       /\ bad' = IF isInit THEN {} ELSE IF dead THEN {x \in b : x[2] = "insert_overwritten_by_late_fetch"} ELSE b
+       /\ bad' = IF isInit THEN {} ELSE IF dead THEN {x \in b : x[2] \in {"insert_overwritten_by_late_fetch", "foreign_value"}} ELSE b
        /\ dead' = IF isInit THEN FALSE ELSE (dead \/ b # {})
     /\ l' = l + 1
 
@@ -102,6 +104,7 @@ TraceSpec == TraceInit /\ [][TraceNext]_tvars
 NoViolation(P) == \A b \in bad : b[1] # P
 NoViolation_C06 == NoViolation("C06")
 NoViolation_C11 == NoViolation("C11")
+NoViolation_C17 == NoViolation("C17")
 NoDrift == bad = {}
 \* the specification's own invariants hold along every conforming execution
 TraceInv == (~dead /\ bad = {}) => Inv
